@@ -26,6 +26,7 @@ def main(tier, replay=None):
         return cc.run_replay(PROP, "C03", replay, cc.pattern_vec)
     res = cc.vec_pipeline(PROP, "C03", "MC_Codec_vec_%s.cfg" % tier, tier, cc.pattern_vec, sso_variants=True)
     cc.require_all_kinds(res["by_kind"])
+    cc.require_all_cells(res["cells"])
     mc = res["mc"]
     cov = {
         "states": mc["distinct"],
@@ -41,6 +42,7 @@ def main(tier, replay=None):
                 "allowed location, all fixed-header type/flag combinations are covered in both tiers. distinct_nontrivial = "
                 "vectors built by the real builder and compared byte for byte." % tier,
         "vectors_per_kind": res["by_kind"],
+        "property_cells_built": res["cells"],
         "panics_observed": res["panics"],
         "sso_feature_builds": res["sso_variants"],
         "violating_records": res["violating_records"],
